@@ -18,6 +18,7 @@
 // ---------------------------------------------------------------------------------------------
 // nothing else may allocate on the library's behalf: count global operator new inside library calls
 // ---------------------------------------------------------------------------------------------
+#ifndef SIM_TSAN  // the TSan runtime brings its own operator new/delete (the global-new oracle is not part of C19)
 void* operator new(std::size_t n)
 {
     if (sim::g_in_lib) ++sim::g_new_in_lib;
@@ -30,6 +31,23 @@ void operator delete(void* p) noexcept { std::free(p); }
 void operator delete[](void* p) noexcept { std::free(p); }
 void operator delete(void* p, std::size_t) noexcept { std::free(p); }
 void operator delete[](void* p, std::size_t) noexcept { std::free(p); }
+#endif
+
+#ifdef SIM_TSAN
+extern "C" __attribute__((used)) const char* __tsan_default_options()
+{
+    return "halt_on_error=1:exitcode=78:report_signal_unsafe=0:second_deadlock_stack=0";
+}
+#endif
+
+#ifdef SIM_TSAN
+// Harness memory (models, logs) is allocated by one task and released by another under the hidden hand-off; the
+// library under test never calls operator delete / free itself (it only talks to the SimHeap allocator).
+extern "C" __attribute__((used)) const char* __tsan_default_suppressions()
+{
+    return "race:^operator delete\nrace:^operator new\nrace:^free$\nrace:^malloc$\nrace:^realloc$\n";
+}
+#endif
 
 #ifdef SIM_ASAN
 extern "C" __attribute__((used)) const char* __asan_default_options()
@@ -438,7 +456,7 @@ int main(int argc, char** argv)
         for (long idx = from; idx < from + count; ++idx)
         {
             sim::g_cur_run = idx;
-#ifdef SIM_ASAN
+#if defined(SIM_ASAN) || defined(SIM_TSAN)
             std::printf("S %ld\n", idx);  // a sanitizer runtime that exits without our crash line still names the run
 #endif
             const auto rs = run_seed_of(seed, prop, idx);
